@@ -299,6 +299,10 @@ Proof.
   exfalso. apply Hn. apply req_amount_in in E. apply in_map_iff. exists (caller, a). auto.
 Qed.
 
+Lemma direct_call_rejected_notin now caller cws recip tok pick st :
+  ~ In caller (map fst (tm_req st)) -> receive now caller cws recip tok pick st = Err.
+Proof. intros Hn. apply direct_call_rejected. apply not_in_req_none. exact Hn. Qed.
+
 Lemma not_after_start_rejected now caller cws recip tok pick st :
   now <= tm_start st -> receive now caller cws recip tok pick st = Err.
 Proof.
